@@ -4,7 +4,9 @@
     integer, zero-padded to a MINIMUM width).
 
     Environment made explicit: the 12 bytes read from /dev/urandom, the clock (seconds since the
-    epoch), whether std::fs::write succeeds, and the file system as a partial map path -> bytes. *)
+    epoch), the name of the private temporary file, the outcomes of std::fs::write / hard_link /
+    remove_file, and the file system as a partial map path -> bytes (returned after every call,
+    also after a failed or panicking one). *)
 From RB Require Import Base.Prelude Conn.DispatchMsg.
 
 (* "org.freedesktop.DBus.Peer", "Ping", "GetMachineId", MACHINE_ID_FILE_PATH = "/tmp/dbus_machine_uuid" *)
@@ -77,64 +79,114 @@ Definition rand2_of (rand : list N) : N :=
 Definition fs := str -> option (list N).
 Definition fs_write (path : str) (data : list N) (f : fs) : fs :=
   fun p => if str_eqb p path then Some data else f p.
+Definition fs_remove (path : str) (f : fs) : fs :=
+  fun p => if str_eqb p path then None else f p.
+
+(* what std::fs::write (create + truncate + write) does: it completes, or it fails leaving the path as
+   it was (could not be created) or holding [left] (created/truncated, then the write failed: ENOSPC) *)
+Inductive wres := WriteDone | WriteFailed (left : option (list N)).
+(* whether std::fs::hard_link can succeed when the target does not exist *)
+Inductive lres := LinkDone | LinkFailed.
 
 Record env := mkEnv {
   e_now : N;              (* SystemTime::now().duration_since(UNIX_EPOCH).as_secs() *)
   e_rand : list N;        (* the 12 bytes read_exact delivers from /dev/urandom *)
-  e_write_ok : bool }.    (* std::fs::write succeeds *)
+  e_tmp_tag : str;        (* the text "<pid>.<counter>" of the private temporary file *)
+  e_write : wres;         (* outcome of std::fs::write(tmp_path, uuid) *)
+  e_link : lres;          (* outcome of std::fs::hard_link(tmp_path, PATH) when PATH does not exist *)
+  e_remove_ok : bool }.   (* std::fs::remove_file(tmp_path) succeeds (its result is ignored) *)
 
-(* fn create_and_store_machine_uuid() -> Result<(), io::Error> *)
-Definition create_and_store_machine_uuid (e : env) (f : fs) : outcome fs :=
+(* format!("{}.{}.{}.tmp", MACHINE_ID_FILE_PATH, process::id(), TMP_COUNTER.fetch_add(1)) *)
+Definition tmp_path (e : env) : str := machine_id_path ++ 46 :: e_tmp_tag e ++ [46;116;109;112].
+
+(* std::fs::write(path, data) *)
+Definition do_write (w : wres) (path : str) (data : list N) (f : fs) : bool * fs :=
+  match w with
+  | WriteDone => (true, fs_write path data f)
+  | WriteFailed None => (false, f)
+  | WriteFailed (Some junk) => (false, fs_write path junk f)
+  end.
+
+(* std::fs::hard_link(src, dst): fails with AlreadyExists when dst exists, whatever else holds *)
+Inductive link_result := LOk | LExists | LOther.
+Definition do_link (l : lres) (src dst : str) (f : fs) : link_result * fs :=
+  match f dst with
+  | Some _ => (LExists, f)
+  | None => match l, f src with
+            | LinkDone, Some c => (LOk, fs_write dst c f)
+            | _, _ => (LOther, f)
+            end
+  end.
+
+(* fn create_and_store_machine_uuid() -> Result<(), io::Error>; the file system afterwards is returned
+   in every case (Ok tt = Ok(()), Err = Err(io error), Panic = an unwrap/debug_assert fired) *)
+Definition create_and_store_machine_uuid (e : env) (f : fs) : outcome unit * fs :=
   let secs := e_now e mod 2 ^ 32 in                         (* as_secs() as u32 *)
-  if negb (len (e_rand e) =? 12) then Panic                 (* read_exact(..).unwrap() *)
+  if negb (len (e_rand e) =? 12) then (Panic, f)            (* read_exact(..).unwrap() *)
   else
     let uuid := format_uuid (rand1_of (e_rand e)) (rand2_of (e_rand e)) secs in
-    if negb (len uuid =? 32) then Panic                     (* debug_assert_eq!(32, uuid.chars().count()) *)
-    else if e_write_ok e then Ok (fs_write machine_id_path uuid f)
-    else Err.
+    if negb (len uuid =? 32) then (Panic, f)                (* debug_assert_eq!(32, uuid.chars().count()) *)
+    else
+      (* let res = fs::write(&tmp_path, uuid).and_then(|_| match fs::hard_link(&tmp_path, PATH) {
+             Err(e) if e.kind() == AlreadyExists => Ok(()), other => other }); *)
+      let (wok, f1) := do_write (e_write e) (tmp_path e) uuid f in
+      let (res, f2) :=
+        if wok then
+          match do_link (e_link e) (tmp_path e) machine_id_path f1 with
+          | (LOk, f') => (Ok tt, f')
+          | (LExists, f') => (Ok tt, f')
+          | (LOther, f') => (Err, f')
+          end
+        else (Err, f1) in
+      (* let _ = fs::remove_file(&tmp_path); res *)
+      (res, if e_remove_ok e then fs_remove (tmp_path e) f2 else f2).
+
+Definition is_call (t : msgtype) : bool := match t with MCall => true | _ => false end.
 
 Section WithUtf8.
   (* std::str::from_utf8 as a predicate (Section 4 of DESIGN.md); only ASCII validity is used *)
   Variable utf8_valid : list N -> bool.
 
-  (* fn get_machine_id() -> Result<String, io::Error> *)
-  Definition get_machine_id (e : env) (f : fs) : outcome (str * fs) :=
-    do f1 <- (match f machine_id_path with        (* if !PathBuf::from(PATH).exists() *)
-              | None => create_and_store_machine_uuid e f
-              | Some _ => Ok f
-              end);
-    match f1 machine_id_path with                 (* std::fs::read(PATH) *)
-    | None => Err
-    | Some vec => if utf8_valid vec then Ok (vec, f1) else Panic   (* String::from_utf8(vec).unwrap() *)
+  (* fn get_machine_id() -> Result<String, io::Error>, with the file system afterwards *)
+  Definition get_machine_id (e : env) (f : fs) : outcome str * fs :=
+    let (r, f1) := match f machine_id_path with        (* if !PathBuf::from(PATH).exists() *)
+                   | None => create_and_store_machine_uuid e f
+                   | Some _ => (Ok tt, f)
+                   end in
+    match r with
+    | Ok _ =>
+        match f1 machine_id_path with                 (* std::fs::read(PATH) *)
+        | None => (Err, f1)
+        | Some vec => if utf8_valid vec then (Ok vec, f1) else (Panic, f1)   (* String::from_utf8(vec).unwrap() *)
+        end
+    | Err => (Err, f1)                                (* create_and_store_machine_uuid()? *)
+    | _ => (Panic, f1)
     end.
 
-  (* pub fn handle_peer_message(msg, con) -> Result<bool, Error>; the result carries what was
-     written to the connection and the file system afterwards.  Sending is assumed to succeed. *)
-  Definition is_call (t : msgtype) : bool := match t with MCall => true | _ => false end.
-
-  Definition handle_peer_message (e : env) (f : fs) (m : msg) : outcome (bool * list msg * fs) :=
+  (* pub fn handle_peer_message(msg, con) -> Result<bool, Error>: (handled, what was written to the
+     connection), and the file system afterwards in every case.  Sending is assumed to succeed. *)
+  Definition handle_peer_message (e : env) (f : fs) (m : msg) : outcome (bool * list msg) * fs :=
     (* if !matches!(msg.typ, MessageType::Call) { return Ok(false); } *)
-    if negb (is_call (m_typ m)) then Ok (false, [], f) else
+    if negb (is_call (m_typ m)) then (Ok (false, []), f) else
     match dh_interface (m_dh m) with
     | Some interface =>
         if str_eqb interface peer_iface then
           match dh_member (m_dh m) with
           | Some member =>
               if str_eqb member ping_name then
-                Ok (true, [make_response (m_dh m)], f)
+                (Ok (true, [make_response (m_dh m)]), f)
               else if str_eqb member get_machine_id_name then
                 match get_machine_id e f with
-                | Ok (id, f1) =>
-                    if existsb (N.eqb 0) id then Panic        (* push_param(..).unwrap(): NUL is refused *)
-                    else Ok (true, [push_str id (make_response (m_dh m))], f1)
-                | OutOfFuel => OutOfFuel
-                | _ => Panic                                  (* get_machine_id().unwrap() *)
+                | (Ok id, f1) =>
+                    if existsb (N.eqb 0) id then (Panic, f1)   (* push_param(..).unwrap(): NUL is refused *)
+                    else (Ok (true, [push_str id (make_response (m_dh m))]), f1)
+                | (_, f1) => (Panic, f1)                       (* get_machine_id().unwrap() *)
                 end
-              else Ok (false, [], f)
-          | None => Ok (false, [], f)
+              else (Ok (false, []), f)
+          | None => (Ok (false, []), f)
           end
-        else Ok (false, [], f)
-    | None => Ok (false, [], f)
+        else (Ok (false, []), f)
+    | None => (Ok (false, []), f)
     end.
 End WithUtf8.
 
